@@ -352,13 +352,15 @@ def handleForever (j : Json) : OpOut :=
   let obs := (j.getObjVal? "obs").toOption.getD Json.null
   let outcome : String := getD obs "outcome" "?"
   let scans : Nat := getD obs "scans" 0
-  let expect := if failCount ≥ 2 then "returned" else "running"
+  let foreign : Bool := getD j "foreign" false
+  let expect := if failCount ≥ 2 || foreign then "returned" else "running"
   let kind := ((outcome.splitOn ":").head?).getD outcome
-  { diffs := if kind == expect then [] else ["forever-outcome"],
-    mon := (if kind == "panic" then ["C20:panic:RunForever:" ++ outcome ++ " (cloud calls " ++ toString failFrom ++ ".." ++ toString (failFrom + failCount - 1) ++ " failed)"] else [])
-        ++ (if failCount == 1 && kind == "returned" then ["C20:fatal:undocumented-stop:after a transient failure (one failed refresh, the rebuild accepted) RunForever stopped: " ++ outcome] else [])
-        ++ (if failCount == 1 && kind == "running" && scans ≤ failFrom + 3 then ["C20:wedged:after a transient failure no further scan was made (calls seen: " ++ toString scans ++ ")"] else [])
-        ++ (if failCount ≥ 2 && kind == "returned" then ["C20:fatal:rebuild-failed"] else []),
+  { diffs := if kind == expect then [] else [if foreign then "forever-notingroup" else "forever-outcome"],
+    mon := (if kind == "panic" then (if foreign then ["C19:panic:RunForever:" ++ outcome] else []) ++ ["C20:panic:RunForever:" ++ outcome ++ " (cloud calls " ++ toString failFrom ++ ".." ++ toString (failFrom + failCount - 1) ++ " failed)"] else [])
+        ++ (if failCount == 1 && !foreign && kind == "returned" then ["C20:fatal:undocumented-stop:after a transient failure (one failed refresh, the rebuild accepted) RunForever stopped: " ++ outcome] else [])
+        ++ (if failCount == 1 && !foreign && kind == "running" && scans ≤ failFrom + 3 then ["C20:wedged:after a transient failure no further scan was made (calls seen: " ++ toString scans ++ ")"] else [])
+        ++ (if failCount ≥ 2 && kind == "returned" then ["C20:fatal:rebuild-failed"] else [])
+        ++ (if foreign && kind != "returned" then ["C19:a node due for removal is not a member of the cloud group, yet RunForever goes on instead of handing the not-in-group error back: " ++ outcome] else []),
     tag := "forever:" ++ toString failFrom ++ ":" ++ toString failCount ++ ":" ++ kind,
     model := Json.mkObj [("expect", toJson expect)] }
 
